@@ -976,7 +976,7 @@ def _value_reads(ctx, fn: FuncInfo, extracted, skip_names=()):
     return hits
 
 
-@R.rule("C08-R4", floor=19, template="T-FLOW (compile-time read set vs cache key)",
+@R.rule("C08-R4", floor=17, template="T-FLOW (compile-time read set vs cache key)",
         desc="what a LIKE family visitor renders is decided at compile time and shared through the compiled cache: "
              "the visitor (and the helpers it calls) never reads an attribute of a bound operand that "
              "BindParameter keeps out of its cache key (value / callable / effective_value) -- ESCAPE, percent "
